@@ -11,7 +11,12 @@ of the new selector that now sits in its place;  (ii) the new selector is Except
 position of `current` for a refinement, Alternative/Next(top-of-rule, branch) in the evaluation position of the top of the
 rule (current climbed over its refinements and its else-if / also-if chain) otherwise;  (iii) the node returned is the new
 branch (later conclusions attach to it).
-The selection performed at evaluation time (ExceptIf / Alternative / Next._evaluate__, update_conclusion) and the
+Selection at evaluation time: step lemmas of ExceptIf / Alternative / Next._evaluate__ (with the real ElseIf / Union / OR bodies
+below them) over abstract operands (streams of any length with arbitrary truth flags): which operand's result is passed on,
+under whose bindings the other operand is evaluated, and whose conclusions are selected for each output - except-if: the
+exception's true results replace the rule's, the rule concludes iff the exception has no true result (inductive invariant
+right_yielded <=> a true result was seen); else-if: first branch that holds; also-if: every branch that holds, for the outputs
+that stem from it (invariants on OR.left_evaluated / right_evaluated).  update_conclusion's own de-duplication and the
 construction of instances from the triggering binding are decided by the bounded reference-interpreter driver only.
 """
 from __future__ import annotations
@@ -27,19 +32,22 @@ PROPERTY = "C08"
 SYM = "krrood.entity_query_language.symbolic"
 RULE = "krrood.entity_query_language.rule"
 CS = "krrood.entity_query_language.conclusion_selector"
-FUNCTIONS = [(RULE, "refinement"), (RULE, "alternative_or_next"), (RULE, "alternative"), (RULE, "next_rule"), (RULE, "_replace_operand"),
+FUNCTIONS = [(CS, "ExceptIf._evaluate__"), (CS, "ExceptIf.yield_and_update_conclusion"), (CS, "Alternative._evaluate__"), (CS, "Next._evaluate__"),
+             (SYM, "ElseIf._evaluate__"), (SYM, "Union._evaluate__"), (SYM, "OR.evaluate_left"), (SYM, "OR.evaluate_right"),
+             (RULE, "refinement"), (RULE, "alternative_or_next"), (RULE, "alternative"), (RULE, "next_rule"), (RULE, "_replace_operand"),
              (SYM, "chained_logic"), (SYM, "SymbolicExpression._current_parent_"), (SYM, "BinaryOperator.__post_init__"),
              (SYM, "SymbolicExpression.__post_init__"), (SYM, "SymbolicExpression._update_children_")]
 ASSUMPTIONS = [
     "RWXNode (display graph node) behaves like a record with a `parent` field (its rustworkx bookkeeping is not part of the "
     "evaluation tree)",
+    "rule trees are trees: evaluating one operand of a selector does not write the other operand's truth flag",
     "the partially built tree is well formed: a binary selector's operands have it as parent; the local shape (the stack top "
     "and up to 4 ancestors) is enumerated exhaustively, deeper chains are not explored (shape-bounded)",
 ]
 TRUSTED = ["RWXNode abstraction"]
 BOUNDED_ONLY_CLAUSES = ["ancestor chains longer than 4 are not explored by the surgery obligations",
-                        "selection at evaluation time (ExceptIf/Alternative/Next._evaluate__, update_conclusion) and instance construction "
-                        "from the triggering binding: bounded reference RDR interpreter driver only"]
+                        "update_conclusion's de-duplication and instance construction from the triggering binding: bounded reference "
+                        "RDR interpreter driver only (the selectors' step lemmas use update_conclusion's contract)"]
 
 KINDS = ["descriptor", "ExceptIf-left", "ExceptIf-right", "Alternative-left", "Alternative-right", "Next-left", "Next-right"]
 
@@ -218,6 +226,195 @@ def h_enter_exit():
     return Harness("enter-exit", run, spec=Spec())
 
 
+# ====================================================================== selection at evaluation time
+class SelWorld:
+    """abstract operands of a conclusion selector: each evaluation of an operand is a stream of results (any length) whose truth
+    flags are arbitrary; the operand sets its own flag before it yields (snapshot rule)"""
+
+    def __init__(self, vm, cname):
+        self.vm = vm
+        ctx = vm.ctx
+        self.OR = vm.loader.cls(SYM, "OperationResult")
+        self.last = {}            # operand name -> last result it produced
+        self.calls = []           # (operand name, incoming bindings)
+        self.updates = []         # (output result, conclusion set) of every update_conclusion call
+        self.trues = {}           # operand name -> ghost key counting its true results in the current evaluation
+        SE = vm.loader.cls(SYM, "SymbolicExpression")
+        self.left = vm.alloc(SE, {"_id_": 11, "_is_false_": False, "_conclusion_": PySet(["left-conclusion"])}, tag="left")
+        self.right = vm.alloc(SE, {"_id_": 12, "_is_false_": False, "_conclusion_": PySet(["right-conclusion"])}, tag="right")
+        self.node = vm.alloc(vm.loader.cls(CS, cname), {"left": self.left, "right": self.right, "_id_": 10, "_is_false_": False, "_eval_parent_": None,
+                                                         "left_evaluated": False, "right_evaluated": False, "_conclusion_": PySet([])}, tag=cname)
+        vm.spec.havoc_exclude = set(getattr(vm.spec, "havoc_exclude", ())) | {"_eval_parent_"}
+        vm.spec.stubs["SymbolicExpression._evaluate__"] = self.child_evaluate
+        vm.spec.stubs["ConclusionSelector.update_conclusion"] = self.update_conclusion
+        vm.spec.opaque_hooks["havoc_container"] = lambda it, old, name: old
+        from pyvc.interp import LoopSpec
+        from pyvc.values import SBool
+
+        def flag_is_false(field):
+            def inv(it, fr):
+                v = self.node.fields[field]
+                return z3.Not(v.t) if isinstance(v, SBool) else z3.BoolVal(v is False)
+            return inv
+        # OR keeps which operand the current output stems from in two flags; their discipline is the loops' invariant
+        vm.spec.loops[("OR.evaluate_left", 0)] = LoopSpec(inv=flag_is_false("right_evaluated"))
+        vm.spec.loops[("OR.evaluate_right", 0)] = LoopSpec(inv=flag_is_false("left_evaluated"))
+
+    def child_evaluate(self, vm, args, kwargs):
+        from pyvc.values import SymStream
+        selfo = args[0]
+        if selfo not in (self.left, self.right):
+            return INLINE
+        name = selfo.tag
+        src = args[1] if len(args) > 1 else kwargs.get("sources")
+        self.calls.append((name, src))
+        gkey = f"trues_{name}_{len(self.calls)}"
+        vm.ctx.ghost[gkey] = 0
+        self.trues[name] = gkey
+        W = self
+
+        def elem(it, idx):
+            false_flag = bool(it.ctx.choice(2, f"flag-{name}"))
+            if name == "right" and "left" in W.last:
+                # frame assumption (tree-shaped rule trees): evaluating the right operand does not write the left operand's flag
+                W.left.fields["_is_false_"] = W.last["left"].fields["is_false"]
+            b = it.alloc(it.ext("object"), {"from": name, "under": src}, tag=f"bindings-of-{name}")
+            r = it.alloc(W.OR, {"bindings": b, "is_false": false_flag, "operand": selfo}, tag=f"result-of-{name}")
+            selfo.fields["_is_false_"] = false_flag
+            W.last[name] = r
+            if not false_flag:
+                it.ctx.ghost_add(gkey)
+            return r
+        return SymStream(f"{name}@{len(self.calls)}", elem, length=None, meta={"kind": "generator"})
+
+    def update_conclusion(self, vm, args, kwargs):
+        selfo, output, conclusions = args[0], args[1], args[2]
+        self.updates.append((output, conclusions))
+        # contract of update_conclusion: the conclusions become the node's selection unless this combination was concluded before
+        if vm.ctx.choice(2, "concluded-before?") == 0 and isinstance(conclusions, PySet):
+            for c in conclusions.items:
+                if c not in selfo.fields["_conclusion_"].items:
+                    selfo.fields["_conclusion_"].items.append(c)
+        return None
+
+    def ghost_true_count(self, name):
+        v = self.vm.ctx.ghost.get(self.trues.get(name), 0)
+        return z3.IntVal(v) if isinstance(v, int) else v
+
+
+def h_except_if():
+    """ExceptIf: a false left result passes through; for a true left result every true result of the exception replaces it
+    (with the exception's conclusions), and the left result itself (with its conclusions) is yielded iff the exception has none."""
+    def run(vm):
+        ctx = vm.ctx
+        W = SelWorld(vm, "ExceptIf")
+
+        def inv_right(it, fr):
+            ry = fr.locals.get("right_yielded")
+            cnt = W.ghost_true_count("right")
+            from pyvc.values import SBool
+            ryt = ry.t if isinstance(ry, SBool) else z3.BoolVal(bool(ry))
+            return z3.And(cnt >= 0, ryt == (cnt > 0))
+        from pyvc.interp import LoopSpec
+        vm.spec.loops[("ExceptIf._evaluate__", 1)] = LoopSpec(inv=inv_right)
+        src = vm.alloc(vm.ext("object"), {}, tag="incoming-bindings")
+        n_updates = 0
+        for res in vm.iterate(vm.call_method(W.node, "_evaluate__", src)):
+            ctx.cover("yielded")
+            l, r = W.last.get("left"), W.last.get("right")
+            new_updates = W.updates[n_updates:]
+            n_updates = len(W.updates)
+            if l is not None and res is l:
+                ctx.check("ExceptIf._evaluate__::a-false-left-result-passes-through-untouched", z3.BoolVal(l.fields["is_false"] is True and not new_updates))
+                ctx.cover("left-false")
+                continue
+            ctx.check("ExceptIf._evaluate__::every-other-output-is-a-true-result-of-the-selector", z3.BoolVal(res.fields["is_false"] is False and res.fields["operand"] is W.node))
+            b = res.fields["bindings"]
+            if r is not None and b is r.fields["bindings"]:
+                ok = r.fields["is_false"] is False and l.fields["is_false"] is False and r.fields["bindings"].fields["under"] is l.fields["bindings"]
+                ctx.check("ExceptIf._evaluate__::the-exception-replaces-the-rule-only-with-its-own-true-results-under-the-rules-bindings", z3.BoolVal(ok))
+                ctx.check("ExceptIf._evaluate__::the-exceptions-conclusions-are-selected-for-that-output",
+                          z3.BoolVal(len(new_updates) == 1 and new_updates[0][0] is r and new_updates[0][1] is W.right.fields["_conclusion_"]), detail=repr(new_updates))
+                ctx.cover("exception")
+            elif l is not None and b is l.fields["bindings"]:
+                ctx.check("ExceptIf._evaluate__::the-rule-itself-concludes-only-when-the-exception-has-no-true-result",
+                          z3.And(z3.BoolVal(l.fields["is_false"] is False), W.ghost_true_count("right") == 0))
+                ctx.check("ExceptIf._evaluate__::the-rules-conclusions-are-selected-for-that-output",
+                          z3.BoolVal(len(new_updates) == 1 and new_updates[0][0] is l and new_updates[0][1] is W.left.fields["_conclusion_"]), detail=repr(new_updates))
+                ctx.cover("rule")
+            else:
+                ctx.fail("ExceptIf._evaluate__::every-output-stems-from-a-result-of-an-operand")
+            ctx.check("ExceptIf._evaluate__::the-exception-is-evaluated-under-the-bindings-of-the-current-rule-result",
+                      z3.BoolVal(all(c[1] is src for c in W.calls if c[0] == "left") and all(c[0] != "right" or c[1] is not src for c in W.calls)))
+    return Harness("select-ExceptIf", run, spec=Spec(), covers=["yielded", "left-false", "exception", "rule"], max_paths=400)
+
+
+def h_alternative():
+    """Alternative (else-if): the first operand that holds provides the conclusions; the second is consulted only when the first is false."""
+    def run(vm):
+        ctx = vm.ctx
+        W = SelWorld(vm, "Alternative")
+        src = vm.alloc(vm.ext("object"), {}, tag="incoming-bindings")
+        n_updates = 0
+        for res in vm.iterate(vm.call_method(W.node, "_evaluate__", src)):
+            ctx.cover("yielded")
+            l, r = W.last.get("left"), W.last.get("right")
+            new_updates = W.updates[n_updates:]
+            n_updates = len(W.updates)
+            b = res.fields["bindings"]
+            ctx.check("Alternative._evaluate__::outputs-belong-to-the-selector", z3.BoolVal(res.fields["operand"] is W.node))
+            if b is l.fields["bindings"]:
+                ok = l.fields["is_false"] is False and res.fields["is_false"] is False
+                ctx.check("Alternative._evaluate__::a-result-of-the-first-branch-is-passed-on-only-when-it-holds", z3.BoolVal(ok))
+                ctx.check("Alternative._evaluate__::then-the-first-branchs-conclusions-are-selected",
+                          z3.BoolVal(len(new_updates) == 1 and new_updates[0][1] is W.left.fields["_conclusion_"]), detail=repr(new_updates))
+                ctx.cover("first")
+            elif r is not None and b is r.fields["bindings"]:
+                under_ok = l.fields["is_false"] is True and r.fields["bindings"].fields["under"] is l.fields["bindings"]
+                ctx.check("Alternative._evaluate__::the-second-branch-is-consulted-only-where-the-first-is-false-under-its-bindings", z3.BoolVal(under_ok))
+                ctx.check("Alternative._evaluate__::the-output-is-true-iff-the-second-branch-holds", z3.BoolVal(res.fields["is_false"] is r.fields["is_false"]))
+                if r.fields["is_false"] is False:
+                    ctx.check("Alternative._evaluate__::then-the-second-branchs-conclusions-are-selected",
+                              z3.BoolVal(len(new_updates) == 1 and new_updates[0][1] is W.right.fields["_conclusion_"]), detail=repr(new_updates))
+                    ctx.cover("second")
+                else:
+                    ctx.check("Alternative._evaluate__::no-conclusions-when-neither-branch-holds", z3.BoolVal(not new_updates), detail=repr(new_updates))
+                    ctx.cover("neither")
+            else:
+                ctx.fail("Alternative._evaluate__::every-output-stems-from-a-result-of-an-operand")
+    return Harness("select-Alternative", run, spec=Spec(), covers=["yielded", "first", "second", "neither"], max_paths=400)
+
+
+def h_next():
+    """Next (also-if): every branch that holds contributes its conclusions to the outputs that stem from it."""
+    def run(vm):
+        ctx = vm.ctx
+        W = SelWorld(vm, "Next")
+        src = vm.alloc(vm.ext("object"), {}, tag="incoming-bindings")
+        n_updates = 0
+        for res in vm.iterate(vm.call_method(W.node, "_evaluate__", src)):
+            ctx.cover("yielded")
+            l, r = W.last.get("left"), W.last.get("right")
+            new_updates = W.updates[n_updates:]
+            n_updates = len(W.updates)
+            b = res.fields["bindings"]
+            selected = [u[1] for u in new_updates]
+            if res.fields["is_false"] is not False:
+                ctx.cover("false-output")
+                continue
+            if l is not None and b is l.fields["bindings"]:
+                ctx.check("Next._evaluate__::a-true-output-from-the-first-rule-carries-exactly-its-conclusions",
+                          z3.BoolVal(l.fields["is_false"] is False and len(selected) == 1 and selected[0] is W.left.fields["_conclusion_"]), detail=repr(new_updates))
+                ctx.cover("first")
+            elif r is not None and b is r.fields["bindings"]:
+                ctx.check("Next._evaluate__::a-true-output-from-the-next-rule-carries-exactly-its-conclusions",
+                          z3.BoolVal(r.fields["is_false"] is False and len(selected) == 1 and selected[0] is W.right.fields["_conclusion_"]), detail=repr(new_updates))
+                ctx.cover("next")
+            else:
+                ctx.fail("Next._evaluate__::every-output-stems-from-a-result-of-an-operand")
+    return Harness("select-Next", run, spec=Spec(), covers=["yielded", "first", "next"], max_paths=600)
+
+
 def h_canary():
     def run(vm):
         forest = Forest(vm, max_up=1)
@@ -233,4 +430,5 @@ def h_canary():
 
 
 def harnesses():
-    return [surgery_harness("refinement"), surgery_harness("alternative"), surgery_harness("next_rule"), h_enter_exit(), h_canary()]
+    return [surgery_harness("refinement"), surgery_harness("alternative"), surgery_harness("next_rule"), h_enter_exit(),
+            h_except_if(), h_alternative(), h_next(), h_canary()]
